@@ -318,6 +318,7 @@ def warm_sweep(ctx: Ctx, rng: random.Random, key_of) -> int:
                 if (wi == 0 and ib != 0) or (wi == 1 and (ia, ib) != (3, 2)) or (wi == 2 and ib != 1):
                     continue            # the new key thread B brings is of the kind the history filled
                 for first, other, n in ((1, 2, counts[ia]["lines"]), (2, 1, counts[len(A) + ib]["lines"])):
+                    n = min(n, 300 if ctx.quick else 4000)      # beyond the line budget nothing is scheduled anyway
                     step = 1 if not ctx.quick or n <= 60 else 2
                     for k in range(0, n + 1, step):
                         jobs.append({"mode": "lines", "calls": [A[ia], B[ib]], "warm": warm,
@@ -441,6 +442,7 @@ def run(ctx: Ctx) -> dict:
         n1, n2 = (x["lines"] for x in c["count"])
         per_dir = 16 if ctx.quick else 10 ** 6
         for first, nfirst in ((1, n1), (2, n2)):
+            nfirst = min(nfirst, 4000)                      # the line budget of a scheduled thread
             step = max(1, nfirst // per_dir)
             # quick: every second line of the first 80 (scratch is typically written early in a call)
             # plus evenly spaced points over the rest; thorough: every line
